@@ -57,32 +57,37 @@ pub fn panic_msg(p: Box<dyn std::any::Any + Send>) -> String {
 }
 
 fn uniform(ops: &[Op]) -> bool {
-    let mut nan = false;
-    let mut real = false;
-    let mut see = |w: i64| {
+    // (some weight was NaN, some weight was real)
+    fn see(st: &mut (bool, bool), w: i64) {
         if w == NAN_W {
-            nan = true
+            st.0 = true
         } else {
-            real = true
+            st.1 = true
         }
-    };
+    }
+    let mut st = (false, false);
     for op in ops {
         match op {
-            Op::AddEdge(e) => see(e.2),
-            Op::AddEdges(es) => es.iter().for_each(|e| see(e.2)),
-            Op::AddEdgeTuple(..) => see(NAN_W),
+            Op::AddEdge(e) => see(&mut st, e.2),
+            Op::AddEdges(es) => es.iter().for_each(|e| see(&mut st, e.2)),
+            Op::AddEdgeTuple(..) => see(&mut st, NAN_W),
             Op::AddEdgeTuples(ts) => {
                 if !ts.is_empty() {
-                    see(NAN_W)
+                    see(&mut st, NAN_W)
                 }
+            }
+            Op::SetWeights(w) => {
+                // every stored weight becomes w: the history is uniform from here on
+                st = (*w == NAN_W, *w != NAN_W);
             }
             _ => {}
         }
     }
-    !(nan && real)
+    !(st.0 && st.1)
 }
 
 pub struct Ctx<'a, W: Write> {
+    pub derive: bool,
     pub em: &'a mut Emitter<W>,
     pub specs: SpecsJ,
     pub universe: Vec<i32>, // names asked about in query events
@@ -101,14 +106,19 @@ impl<'a, W: Write> Ctx<'a, W> {
         let specs = self.specs;
         let r = catch_unwind(AssertUnwindSafe(|| {
             let mut g = build(specs, path);
-            let res = op.apply(&mut g);
-            (res, project(&g), snapshot(&g))
+            if op.is_derive() {
+                let (res, src_after) = op.apply_derive(&mut g);
+                (res, project(&g), snapshot(&g), src_after)
+            } else {
+                let res = op.apply(&mut g);
+                (res, project(&g), snapshot(&g), json!([]))
+            }
         }));
         let mut full: Vec<Op> = path.to_vec();
         full.push(op.clone());
         match r {
-            Ok((res, post, snap)) => {
-                let id = self.em.emit(json!({"parent": parent, "op": op.to_json(), "res": res, "post": post,
+            Ok((res, post, snap, src_after)) => {
+                let id = self.em.emit(json!({"parent": parent, "op": op.to_json(), "res": res, "post": post, "src_after": src_after,
                     "has_snap": self.with_snap, "snap": if self.with_snap { snap } else { json!([]) }, "uniform": uniform(&full)}));
                 (id, res)
             }
@@ -245,6 +255,19 @@ pub fn random_histories<W: Write>(cx: &mut Ctx<W>, rng: &mut ChaCha8Rng, n: usiz
             if nqueries > 0 && (qpoints.contains(&(i + 1)) || i + 1 == len) {
                 cx.query(parent, &path);
             }
+            if cx.derive && (i + 1 == len || qpoints.contains(&(i + 1))) {
+                // a few derive operations from this state, each result queried
+                let names: Vec<i32> = (1..=k).chain(std::iter::once(99)).collect();
+                let sub: Vec<i32> = names.iter().copied().filter(|_| rng.gen_bool(0.6)).collect();
+                for op in [Op::Subgraph(sub), Op::Reverse, Op::SetWeights(if rng.gen_bool(0.5) { 7 } else { NAN_W }), Op::ToSingle] {
+                    let (id, res) = cx.step(parent, &path, &op);
+                    if res == "Ok" {
+                        let mut p2 = path.clone();
+                        p2.push(op);
+                        cx.query(id, &p2);
+                    }
+                }
+            }
         }
     }
 }
@@ -270,5 +293,49 @@ pub fn new_from<W: Write>(cx: &mut Ctx<W>, ns: &[NodeArg], es: &[EdgeArg]) -> (u
         }
         Err(p) => (cx.em.emit(json!({"parent": 0, "op": opj, "res": "Panic", "panic": panic_msg(p), "post": no_post(specs), "has_snap": false,
                 "snap": [], "uniform": uniform(&ops)})), "Panic"),
+    }
+}
+
+/// Derive events (C15) from the state reached by `path`: every subset of the name universe
+/// (+ one absent name) as get_subgraph argument, reverse, set_all_edge_weights, to_single_edges;
+/// each derived graph is then asked the full query table and snapshotted.
+pub fn derive_all<W: Write>(cx: &mut Ctx<W>, parent: u64, path: &[Op], k: i32, query: bool) {
+    let mut ops = vec![Op::Reverse, Op::SetWeights(NAN_W), Op::SetWeights(7), Op::ToSingle];
+    let uni: Vec<i32> = (1..=k).chain(std::iter::once(99)).collect();
+    for m in 0..(1u32 << uni.len()) {
+        ops.push(Op::Subgraph(uni.iter().enumerate().filter(|(i, _)| m >> i & 1 == 1).map(|(_, x)| *x).collect()));
+    }
+    for op in ops {
+        let (id, res) = cx.step(parent, path, &op);
+        if res == "Ok" && query {
+            let mut p2 = path.to_vec();
+            p2.push(op);
+            cx.query(id, &p2);
+        }
+    }
+}
+
+/// Exhaustive forest with derive events from every state up to `depth`.
+pub fn exhaustive_derive<W: Write>(cx: &mut Ctx<W>, k: i32, depth: usize, qdepth: i32) {
+    let root = cx.root();
+    derive_all(cx, root, &[], k, qdepth >= 0);
+    let mut path: Vec<Op> = vec![];
+    rec_derive(cx, k, depth, qdepth, root, &mut path);
+}
+
+fn rec_derive<W: Write>(cx: &mut Ctx<W>, k: i32, depth: usize, qdepth: i32, parent: u64, path: &mut Vec<Op>) {
+    if path.len() >= depth {
+        return;
+    }
+    let tag = path.len() as i32 + 1;
+    for op in single_ops(k, tag) {
+        let (id, res) = cx.step(parent, path, &op);
+        if res == "Panic" {
+            continue;
+        }
+        path.push(op);
+        derive_all(cx, id, path, k, (path.len() as i32) <= qdepth);
+        rec_derive(cx, k, depth, qdepth, id, path);
+        path.pop();
     }
 }
